@@ -124,6 +124,9 @@ let obs_of_dump (r : Sx.t) : obs =
   match r with
   | L [A "scalar"; A dt; v] -> (try OVal (leafv (dtype_of dt) (datum_of_sx v)) with Bad s -> OBad s)
   | L [A "none"] -> OVal VNone
+  | L [A "par"; A (("char" | "byte") as k); _; L [A "np"; A "uint8"; L [_]; L data]] ->
+    (* a bare char/byte array is how the C++ layer hands out one string *)
+    (try OVal (VStr (k = "char", List.map z_of_sx data)) with Bad s -> OBad s)
   | L [A "record"; at; arr] ->
     (try
        match to_list (content_of_sx arr) with
